@@ -83,6 +83,12 @@ def main():
             r['lineage_counts'] = [int(x) for x in coal.lineage_config.lineages]
             r['demography_pops'] = list(coal.demography.pop_names)
             r['k_lc'] = int(coal.lineage_counting_state_space.k)
+            # queries made EARLIER on the same object (their values are not compared here): what a statistic returns must not
+            # depend on what the object was asked before
+            for op in case.get('pre_ops', []):
+                with warnings.catch_warnings():
+                    warnings.simplefilter('ignore')
+                    run_op(coal, op)
             for op in case['ops']:
                 if case.get('fresh_per_op'):
                     coal = build.coalescent(case['spec'])
